@@ -129,6 +129,13 @@ def method_src(mid, m, self_flag=False):
         lines.append(f"    return ({mid!r}, call_next({_passargs(m)}))")
     elif k == "next_other":
         lines.append(f"    return ({mid!r}, call_next({value_src(body[1])}))")
+    elif k == "next_try":
+        # a method that tolerates being the last of its chain
+        lines.append("    try:")
+        lines.append(f"        r = call_next({_passargs(m)})")
+        lines.append("    except TypeError:")
+        lines.append("        r = 'end'")
+        lines.append(f"    return ({mid!r}, r)")
     elif k == "next2":
         # two call_next sites: pre-emption can fall between them
         lines.append(f"    r1 = call_next({_passargs(m)})")
